@@ -215,4 +215,25 @@ theorem upsert_keys_sub (ch : List (PElem × GVal)) (pe : PElem) (v : GVal) :
   · exact hk
   · exact List.mem_append_left _ hk
 
+theorem nodup_eraseDups_aux (n : Nat) : ∀ (l : List Nat), l.length ≤ n → l.eraseDups.Nodup := by
+  induction n with
+  | zero =>
+    intro l hl
+    have : l = [] := List.eq_nil_of_length_eq_zero (by omega)
+    subst this; simp
+  | succ n ih =>
+    intro l hl
+    cases l with
+    | nil => simp
+    | cons a as =>
+      rw [List.eraseDups_cons]
+      refine List.nodup_cons.mpr ⟨?_, ih _ ?_⟩
+      · rw [List.mem_eraseDups]
+        simp
+      · have := List.length_filter_le (fun b => !b == a) as
+        simp at hl; omega
+
+theorem nodup_eraseDups (l : List Nat) : l.eraseDups.Nodup :=
+  nodup_eraseDups_aux l.length l (Nat.le_refl _)
+
 end Fiddle
